@@ -57,7 +57,7 @@ FORMS = {
     "filter-upper": ("m {{ %s | upper }}", lambda v: "m " + _s(v).upper()),
     "filter-length": ("n{{ %s | string | length }}", lambda v: "n" + str(len(_s(v)))),
     "filter-replace": ("{{ %s | replace('n', 'N') }}", lambda v: _s(v).replace("n", "N")),
-    "filter-escape": ("{{ %s | escape }}", lambda v: _s(v).replace("\\", "\\\\").replace("|", "\\|").replace(";", "\\;")),
+    "filter-escape": ("{{ %s | string | escape }}", lambda v: _s(v).replace("\\", "\\\\").replace("|", "\\|").replace(";", "\\;")),
     "concat": ("{{ 'x' ~ %s }}", lambda v: "x" + _s(v)),
     "stmt-if": ("{%% if %s %%}T{%% else %%}F{%% endif %%}", lambda v: "T" if v else "F"),
     "stmt-if-eq": ("{%% if %s == 'Ann' %%}eqA{%% else %%}neA{%% endif %%}", lambda v: "eqA" if v == "Ann" else "neA"),
@@ -116,9 +116,10 @@ def gen_book(rng, force=None):
     data = [dict(ID=i, name=NAMES[k], flag=rng.choice(["yes", "no"]), city=rng.choice(CITIES),
                  custom=dict(happy="H" + i, sad="S" + i)) for k, i in enumerate(ids)]
     road = force.get("road") or rng.choice([
-        "create-plain", "create-single", "create-bulk", "create-bulk",
-        "block-1", "block-1", "block-1-data", "block-1-in-loop", "block-2", "block-2", "block-2-data",
-        "template-sheet-parser", "empty-context-data-cell", "empty-context-index-cell", "empty-context-trigger-cell"])
+        "create-plain", "create-plain", "create-single", "create-single", "create-bulk", "create-bulk", "create-bulk",
+        "block-1", "block-1", "block-1", "block-1-data", "block-1-data", "block-1-in-loop", "block-1-in-loop",
+        "block-2", "block-2", "block-2", "block-2-data", "block-2-data",
+        "template-sheet-parser", "template-sheet-parser", "empty-context-data-cell", "empty-context-index-cell", "empty-context-trigger-cell"])
     main_mode = {"create-plain": "plain", "create-single": "single", "create-bulk": "bulk"}.get(road) or \
         rng.choice(["plain", "single", "bulk"])
     if road == "template-sheet-parser":
@@ -185,7 +186,7 @@ def missing_ref(rng, book, sheet, site):
     if site == "after-loop":
         ways = ["loop-variable-after-end_for"] * 3 + ["loop-index-after-end_for"]
     if site == "in-loop-noindex":
-        ways = ["undeclared-loop-index"]
+        ways = ways + ["undeclared-loop-index"] * 3
     way = rng.choice(ways)
     ref = {
         "misspelt-field": rng.choice(["nmae", "Name", "citty"]),
@@ -206,6 +207,15 @@ def missing_ref(rng, book, sheet, site):
     if ref == "name.first" and not sheet_has_data(book, sheet):
         ref = "nmae.first"
     return way, ref
+
+
+def other_row_possible(book, sheet):
+    """`ID` is defined in the instances of `sheet` and differs between them"""
+    if len(book["ids"]) < 2 or book["main_mode"] == "tsp":
+        return False
+    if sheet == "main":
+        return book["main_mode"] in ("single", "bulk")
+    return sheet_has_data(book, sheet)
 
 
 COLUMNS = ["message_text", "message_text", "message_text", "choices", "image", "condition", "include_if", "loop-list",
@@ -245,18 +255,26 @@ def gen_plant(rng, book, force):
     guard = "none"
     if not defined and "guard" in force:
         guard = force["guard"]
-    elif not defined and rng.random() < 0.3:
-        g = rng.choice(["text", "expr", "row", "row", "other-row"])
+    elif not defined and rng.random() < 0.4:
+        g = rng.choice(["text", "expr", "row", "row", "other-row", "other-row"])
+        if g == "text" and form not in TEXT_FORMS:
+            g = "row"
+        if g == "other-row" and not (other_row_possible(book, sheet) and form in TEXT_FORMS):
+            g = "expr"
+        if g == "row" and column == "include_if":
+            g = "expr"
         if g == "text" and form in TEXT_FORMS:
             guard = rng.choice(list(TEXT_GUARDS))
         elif g == "expr":
-            guard = rng.choice(["or-short", "and-short"] + (["native-or-short"] if native_ok else []))
+            guard = rng.choice(["or-short"] + (["and-short"] if column != "include_if" else []) + (["native-or-short"] if native_ok else []))
         elif g == "row" and column != "include_if":
             guard = rng.choice(ROW_GUARDS)
             if guard == "excluded-insert-row" and sheet == "main":
                 guard = "false-include_if"
-        elif g == "other-row" and sheet == "main" and book["main_mode"] in ("single", "bulk") and form in TEXT_FORMS and len(book["ids"]) > 1:
+        elif g == "other-row" and other_row_possible(book, sheet) and form in TEXT_FORMS:
             guard = "only-for-another-data-row"
+    if guard == "only-for-another-data-row" and not (other_row_possible(book, sheet) and form in TEXT_FORMS):
+        guard = "none"
     if guard != "none" and column == "block-data_row_id":
         column = "block-template_arguments"     # an un-evaluated reference gives no row id
         if form in NATIVE_FORMS:
@@ -591,7 +609,7 @@ def csv_text(rows):
     return buf.getvalue()
 
 
-def realise(book):
+def realise(book, keep_interp=False):
     """-> dict(files=..., expect='error' | {flow name: [messages]}, api=None | 'tsp')"""
     plant = book["plant"]
     builders = build_sheets(book)
@@ -653,8 +671,12 @@ def realise(book):
             expect[name] = out
     except Evaluated:
         expect = "error"
-    book.pop("_run", None)
-    return dict(files=files, expect=expect, api="tsp" if mode == "tsp" else None)
+    real = dict(files=files, expect=expect, api="tsp" if mode == "tsp" else None)
+    if keep_interp:
+        real["_interp"] = run       # run() reads book["_run"]: the caller keeps it until done
+    else:
+        book.pop("_run", None)
+    return real
 
 
 # ------------------------------------------------------------------ running the implementation
@@ -717,3 +739,137 @@ def describe(book):
     p = book["plant"]
     return (f"road={book['road']} main={book['main_mode']} sheet={p['sheet']} column={p['column']} form={p['form']} "
             f"ref={p['ref']} way={p['way']} guard={p['guard']} site={p['site']}")
+
+
+# ------------------------------------------------------------------ histories on ONE long-lived ContentIndexParser
+# The objects a real run shares: one ContentIndexParser (its template/data registries) serves every
+# _parse_flow / get_node_group call of the run.  A history is a sequence of such calls — flows for
+# different data rows, blocks with different rows and arguments, whole parse_all_flows passes,
+# repeated, failing ones in between — on ONE parser; each call must give what the reference
+# interpreter says and what the same call gives on a parser built afresh from the same workbook.
+def history_book(rng):
+    """a workbook whose planted reference is evaluated for SOME instances only, whenever possible"""
+    road = rng.choice(["create-bulk", "create-bulk", "block-1-data", "block-1", "block-2-data", "block-2", "block-1-in-loop"])
+    force = dict(road=road)
+    r = rng.random()
+    if r < 0.55:
+        force.update(defined=False, guard="only-for-another-data-row", form=rng.choice(TEXT_FORMS))
+    elif r < 0.7:
+        force.update(defined=True)
+    book = gen_book(rng, force)
+    if len(book["ids"]) < 2:
+        return history_book(rng)
+    return book
+
+
+def gen_ops(rng, book, n):
+    ids = book["ids"]
+    ops = []
+    for _ in range(n):
+        k = rng.random()
+        if k < 0.45 and book["main_mode"] != "plain":
+            ops.append(["flow", rng.choice(ids)])
+        elif k < 0.55 and book["main_mode"] == "plain":
+            ops.append(["flow", ""])
+        elif k < 0.8 and book["uses_blocks"]:
+            child = "blkB" if (book["calls_B"] and rng.random() < 0.5) else "blkA"
+            with_data = book["blkA_data"] if child == "blkA" else book["blkB_data"]
+            ops.append(["block", child, rng.choice(ids) if with_data else "", rng.choice(["LIT", "Ann", "w"])])
+        elif k < 0.9:
+            ops.append(["all"])
+        else:
+            ops.append(["flow", rng.choice(ids) if book["main_mode"] != "plain" else ""])
+    if ops and rng.random() < 0.5:
+        ops.append(list(rng.choice(ops)))      # a call repeated verbatim
+    return ops
+
+
+def expected_op(book, real, op):
+    """-> 'error' | value, by the reference interpreter"""
+    run = real["_interp"]
+    try:
+        if op[0] == "flow":
+            c = dict(a1=book["a1"], a2="d2")
+            if op[1]:
+                c.update(next(r for r in book["data"] if r["ID"] == op[1]))
+            out = []
+            run("main", c, out)
+            return out
+        if op[0] == "block":
+            c = {}
+            if op[2]:
+                c.update(next(r for r in book["data"] if r["ID"] == op[2]))
+            c[{"blkA": "b1", "blkB": "c1"}[op[1]]] = op[3]
+            out = []
+            run(op[1], c, out)
+            return out
+        return real["expect"] if real["expect"] == "error" else dict(real["expect"])
+    except Evaluated:
+        return "error"
+
+
+def build_parser(files):
+    from rpft.converters import get_content_index_parser
+
+    d = tempfile.mkdtemp(prefix="c16hist")
+    try:
+        for name, text in files.items():
+            with open(os.path.join(d, name + ".csv"), "w", encoding="utf8", newline="") as f:
+                f.write(text)
+        return run_cli_mode(get_content_index_parser, [d], "csv", None, [])
+    finally:
+        shutil.rmtree(d, ignore_errors=True)
+
+
+def apply_op(parser, book, op):
+    """-> value | 'error'"""
+    from rpft.rapidpro.models.containers import FlowContainer, RapidProContainer
+
+    def go():
+        if op[0] == "flow":
+            fl = parser._parse_flow("main", "data" if op[1] else "", op[1], [book["a1"]], RapidProContainer(), "")
+            return flow_messages(fl.render())
+        if op[0] == "block":
+            ng = parser.get_node_group(op[1], "data" if op[2] else "", op[2], [op[3]])
+            fc = FlowContainer("blk")
+            ng.add_nodes_to_flow(fc)
+            return flow_messages(fc.render())
+        cont = RapidProContainer()
+        parser.parse_all_flows(cont)
+        return {fl["name"]: flow_messages(fl) for fl in cont.render()["flows"]}
+    r = run_cli_mode(go)
+    return r[1] if r[0] == "ok" else "error"
+
+
+def run_history(book, ops):
+    """-> list of (op, expected, on the long-lived parser, on a fresh parser or None); None when the workbook does not load.
+    The first call IS a call on a fresh parser; later ones are compared with the reference interpreter, and
+    with a parser built afresh only when they deviate (to tell a history effect from a plain error)."""
+    real = realise(book, keep_interp=True)
+    p = build_parser(real["files"])
+    if p[0] != "ok":
+        return None
+    long_lived = p[1]
+    res = []
+    for op in ops:
+        exp = expected_op(book, real, op)
+        got = apply_op(long_lived, book, op)
+        fresh = None
+        if got != exp:
+            f = build_parser(real["files"])
+            fresh = apply_op(f[1], book, op) if f[0] == "ok" else "error"
+        res.append((op, exp, got, fresh))
+    book.pop("_run", None)
+    return res
+
+
+def judge_history(res):
+    """-> None | (key, summary, index of the first offending call)"""
+    for k, (op, exp, got, fresh) in enumerate(res):
+        if got == exp:
+            continue
+        note = " (the same call on a parser built afresh is right: the result depends on the calls before)" if fresh == exp else ""
+        if exp == "error":
+            return ("missing-name-renders", f"call {k} {op}: an unknown name is evaluated but the call delivers {got!r}" + note, k)
+        return ("defined-not-exact", f"call {k} {op}: {got!r}, expected {exp!r}" + note, k)
+    return None
